@@ -9,6 +9,9 @@ use serde_json::{json, Value};
 use std::collections::{BTreeMap, HashMap};
 use vutil::{Local, Rng};
 
+/// Largest observed ratio (x100) of hook ticks of one prefix parse to reference steps + 200.
+pub static MAX_TICK_RATIO_X100: std::sync::atomic::AtomicU64 = std::sync::atomic::AtomicU64::new(0);
+
 pub struct Model {
     pub id: String,
     pub family: String,
@@ -121,6 +124,14 @@ pub struct Expect {
     pub source: &'static str,
     /// Tokens below the entry (unpruned), from the same source.
     pub tokens: Vec<Tok>,
+}
+
+/// Logical step budget of one entry-point call: 100 x the reference interpreter's steps + 50 000
+/// hook ticks. The largest ratio observed on the unchanged tree is about 1.5 (see the C11 evidence,
+/// `max_tick_ratio_x100`), so this leaves a factor of more than 60 before it can fire wrongly,
+/// and a runaway parse is stopped within milliseconds.
+pub fn step_budget(reference_steps: u64) -> u64 {
+    reference_steps.saturating_mul(100).saturating_add(50_000)
 }
 
 fn full_opts() -> Opts {
@@ -289,7 +300,7 @@ pub fn run_and_judge(ctx: &CaseCtx, l: &mut Local) {
         l.count("skipped_expensive_case");
         return;
     }
-    let mut budget = full.steps.saturating_mul(1000).saturating_add(1_000_000);
+    let mut budget = step_budget(full.steps);
     let mut groups = ctx.cfg.groups;
     if groups & crate::run::grp::PAIRS != 0 && !(ctx.case.pre.is_empty() && ctx.case.post.is_empty()) {
         // the pair observation also parses the other windows of the parent string: they must be
@@ -303,7 +314,7 @@ pub fn run_and_judge(ctx: &CaseCtx, l: &mut Local) {
                 groups &= !crate::run::grp::PAIRS;
                 l.count("pair_observation_skipped_not_well_founded");
             }
-            budget = budget.max(o.steps.saturating_mul(1000).saturating_add(1_000_000));
+            budget = budget.max(step_budget(o.steps));
         }
     }
     let obs = exec_typed(ctx.rule.typed, ctx.case, groups, budget);
@@ -1113,12 +1124,14 @@ fn c11(ctx: &CaseCtx, obs: &CaseObs, full: &Outcome, l: &mut Local) {
     }
     l.count_n("reference_steps", full.steps);
     l.count_n("hook_ticks", obs.hooks.ticks);
+    let ratio = obs.hooks.ticks * 100 / (full.steps + 200);
+    MAX_TICK_RATIO_X100.fetch_max(ratio, std::sync::atomic::Ordering::Relaxed);
     let mut over = |api: &str, p: Option<(&str, &str)>, l: &mut Local| {
         l.count("parses_with_step_budget");
         if let Some(("step-budget", m)) = p {
             l.violation(
                 "unclassified/C11/step-budget-exceeded",
-                format!("{} did not finish within 1000 x {} + 10^6 logical steps ({})", api, full.steps, m),
+                format!("{} did not finish within 100 x {} + 50 000 logical steps ({})", api, full.steps, m),
                 ctx.witness(json!({"api": api, "reference_steps": full.steps})),
             );
         }
